@@ -27,6 +27,25 @@ CLAIMS = {
    design='DESIGN.md section 4 C02; rules R-DONATE, R-YIELD1, R-FOLD, R-MASK M-c, R-SCOPE, R-API',
    technique='buffer-ownership dataflow + CFG must-pass-through (yield/finally) + structural pairing checks + getattr/signature API check',
    note='R-API imports the installed third-party packages (jax, numpy, haiku, optax) to inspect attributes/signatures; fedjax itself is never imported.'),
+ 'C05': dict(
+   text='Static analysis (level "other"): decides the structural conditions that make evaluation a masked monoid fold: '
+        'merge/reduce of every Stat combine field with the same field and return through the sanitising new() factory, '
+        'MeanStat.new clamps the weight and zeroes accum under the clamped weight, statistics are only built through new(), '
+        'evaluate_batch replaces masked rows by metric.zero() before reduce(), _evaluate_model_step always supplies the '
+        'batch\'s own mask (or all-True) and merges per metric, evaluation loops start at zero() and end in result(), '
+        'MeanStat.result is safe_div, zero()/evaluate_example() agree on the Stat type, and every padded producer reaches a '
+        'mask-aware consumer. Associativity/commutativity up to rounding is not decided.',
+   design='DESIGN.md section 4 C05; rules R-STAT, R-MASK M-a/M-b, R-DIV, R-TYPE',
+   technique='shape/provenance checks over reaching definitions + producer-to-consumer mask-awareness summaries'),
+ 'C06': dict(
+   text='Static analysis (level "other"): traces every padded-batch producer to its consuming step function and requires a '
+        'mask-aware consumer (summary computed transitively through callees); inside the mask-aware functions checks that '
+        'per-example values meet the batch\'s own mask before any reduction and that the normalising count is a reduction of '
+        'the same mask (grad.scalar_loss, _evaluate_average_loss_step, Mime gradient pass, Agnostic segment sums), that the '
+        'means use safe_div, and that the regulariser enters exactly once. Reports one known finding (regulariser added per '
+        'batch in the Agnostic domain pass). Numerical equality of padded vs unpadded results is not decided.',
+   design='DESIGN.md section 4 C06; rules R-MASK M-a/M-b, R-DIV, R-REG',
+   technique='producer/consumer dataflow with mask-awareness summaries + paired-reduction pattern checks'),
  'C07': dict(
    text='Static analysis (level "other"): ownership/liveness analysis of every donated buffer in tree_util (owned copy before '
         'first donation, dead after donation, public functions donate nothing, private wrappers stay private), recognition of '
@@ -71,6 +90,15 @@ CLAIMS = {
         'else. It does not decide value equality of two calls or pickle round trips.',
    design='DESIGN.md section 4 C10; rules R-PURE, R-DONATE, R-KEY K3, R-FROZEN, R-NONDET',
    technique='interprocedural alias/mutation analysis over reaching definitions + PRNG-key linearity typestate'),
+ 'C14': dict(
+   text='Static analysis (level "other"): per metric class, contradiction rules over the code shape: slice bounds taken from '
+        'a user-supplied int field are clamped (k < 1), membership in a tuple of ids is a disjunction not an AND-fold, numerator '
+        'and denominator of sequence metrics are built from the same get_target_weight(target, masked values), zero() and '
+        'evaluate_example() agree on the Stat type with an all-zero identity, the logits mask is added before ranking, top-k '
+        'ranks by argsort of negated scores, accuracy is target == argmax, the confusion matrix sets exactly [target, predicted]. '
+        'Agreement with an independent reference on all inputs is not decided.',
+   design='DESIGN.md section 4 C14; rules R-SLICE, R-FOLD, R-PAIR, R-TYPE, R-ORDER',
+   technique='per-class contradiction/pairing lints over the AST with reaching-definition provenance'),
  'C19': dict(
    text='Static analysis (level "other"): for each cache completion marker (a path whose existence skips work) every '
         'writer that can create it is shown, on all normal CFG paths, to write a distinct temp name and publish it by '
